@@ -105,6 +105,7 @@ def load_registry():
                 "bound": kv.get("bound"),
                 "fn": kv.get("fn", ""),
                 "solver": kv.get("solver", "minisat"),
+                "hist": kv.get("hist", "no") == "yes",
                 # big=yes: the pre-state size bound is MAX_CAP, so the thorough tier repeats the
                 # harness with MAX_CAP = 2^40
                 "big": kv.get("big", "no") == "yes",
@@ -426,13 +427,13 @@ def run_verus(path, logdir, timeout=600):
     tm = j.get("times-ms", {})
     res["smt_ms"] = (tm.get("smt", {}) or {}).get("total") if isinstance(tm.get("smt"), dict) else None
     res["total_ms"] = tm.get("total")
-    if "encountered-vir-error" in vr or "encountered-error" in vr or (p.returncode != 0 and res["errors"] == 0):
+    if vr.get("encountered-vir-error") or vr.get("encountered-error") or (p.returncode != 0 and res["errors"] == 0) or not vr:
         res["status"] = "error"
     else:
         res["status"] = "done"
     # failed items, from stderr diagnostics
     failed = []
-    for m in re.finditer(r"^error: (.*)\n\s+--> ([^\n]*)", p.stderr, re.M):
+    for m in re.finditer(r"^error(?:\[E\d+\])?: (.*)\n\s+--> ([^\n]*)", p.stderr, re.M):
         failed.append({"msg": m.group(1), "at": m.group(2)})
     res["failed_items"] = failed
     return res
